@@ -10,6 +10,7 @@ mod evgen;
 mod fuzzsupport;
 mod fwd;
 mod gen;
+mod midas;
 mod model;
 mod names;
 mod recgen;
